@@ -311,4 +311,148 @@ def pushedOf : List Op → List (Nat × Nat × Nat)
   | .push id ord dlen :: ops => (id, ord, dlen) :: pushedOf ops
   | _ :: ops => pushedOf ops
 
+/-! ### Part (b): the SYNC handshake, abstractly
+
+Leader: `log` = ids of the persisted records, record number k has id k (ids grow with (AofIndex, AofOffset)) and was
+pushed into the buffer with seq k-1 (`append` = AOF append + `ReplicationManager.PushLock`). `manager.currentAofId` =
+id of the newest record.
+
+Follower `f`: `curId` = `ReplicationClient.currentAofId` (0 = none), `log` = the records it has applied (appended to its own
+AOF and replayed) since its last reset, in arrival order; `conn`; `cur` = the cursor of the `ReplicationServer` serving it.
+
+Events (each is one atomic step; a cut is an event at a message boundary):
+* `append dlen` — the leader persists and publishes record `log.length + 1`.
+* `connect f` — `sendSyncCommand` + `handleInitSync` + `addServerChannel` (AddPoll), decided exactly as the code does:
+  reported id empty → `Head`; the answer H is the newest buffered id (next id to be written if the buffer is empty); the
+  client resets its log, SETS `curId := H` (InitSync line `self.currentAofId = aofId` before `recvFiles`), phase `files`;
+  known id → `Search`: found → resume after it; not found but equal to the manager's current id → wait at the end;
+  otherwise `ERR_NOT_FOUND` → the client clears its id and repeats the request with an empty id.
+* `deliver f` — phase `files H pos`: the next persisted record with id < H is transferred and applied (`curId :=` its id),
+  or the end marker switches to `stream`; phase `stream`: one iteration of `SendProcess`: the item in hand is written
+  (applied by the follower, `curId :=` its id) and acknowledged, else `Pop` (error → the channel closes, RemovePoll).
+* `cut f` — the connection is lost: RemovePoll, `conn := off`; the follower keeps `curId` and its log and will reconnect.
+-/
+
+inductive Conn
+  | off
+  | files (h pos : Nat)
+  | stream
+  deriving Repr, DecidableEq
+
+structure Fol where
+  curId : Nat
+  log : List Nat
+  conn : Conn
+  cur : Cursor
+  deriving Repr, DecidableEq
+
+def Fol.new : Fol := { curId := 0, log := [], conn := .off, cur := newCursor }
+
+structure Sync where
+  q : Q
+  log : List Nat
+  fols : List (Nat × Fol)
+  deriving Repr, DecidableEq
+
+def Sync.init (bufSize maxSize : Nat) : Sync := { q := newQueue bufSize maxSize, log := [], fols := [] }
+
+def getF : List (Nat × Fol) → Nat → Fol
+  | [], _ => Fol.new
+  | (m, f) :: r, n => if m = n then f else getF r n
+
+def setF : List (Nat × Fol) → Nat → Fol → List (Nat × Fol)
+  | [], n, f => [(n, f)]
+  | (m, g) :: r, n, f => if m = n then (n, f) :: r else (m, g) :: setF r n f
+
+inductive Ev
+  | append (dlen : Nat)
+  | connect (f : Nat)
+  | deliver (f : Nat)
+  | cut (f : Nat)
+  deriving Repr, DecidableEq
+
+inductive SObs
+  | ok
+  | full (h : Nat)            -- empty id (or ERR_NOT_FOUND and retry): file transfer up to h, then live stream
+  | retryFull (h : Nat)       -- ERR_NOT_FOUND, client cleared its id, full transfer
+  | resume (id : Nat)         -- known id found in the buffer
+  | atEnd (id : Nat)          -- not in the buffer but equal to the manager's current id
+  | file (id : Nat)
+  | filesDone
+  | send (id : Nat)
+  | popped (id : Nat)
+  | idle
+  | outOfBuf
+  | noop
+  deriving Repr, DecidableEq
+
+/-- `handleInitSync` with an empty id, and the client's reaction -/
+def connectFull (s : Sync) (n : Nat) : Sync × Nat :=
+  let r := head s.q newCursor
+  let h := if r.1 = .ok then r.2.bufId else s.log.length + 1
+  let fol : Fol := { curId := h, log := [], conn := .files h 0, cur := r.2 }
+  ({ s with q := addPoll s.q r.2, fols := setF s.fols n fol }, h)
+
+def connect (s : Sync) (n : Nat) : Sync × SObs :=
+  let f := getF s.fols n
+  if f.conn ≠ .off then (s, .noop)
+  else if f.curId = 0 then
+    let r := connectFull s n
+    (r.1, .full r.2)
+  else
+    let r := search s.q f.curId newCursor
+    if r.1 = .ok then
+      ({ s with q := addPoll s.q r.2, fols := setF s.fols n { f with conn := .stream, cur := r.2 } }, .resume f.curId)
+    else if f.curId = s.log.length then
+      let c := seekEnd s.q newCursor
+      ({ s with q := addPoll s.q c, fols := setF s.fols n { f with conn := .stream, cur := c } }, .atEnd f.curId)
+    else
+      let r := connectFull s n
+      (r.1, .retryFull r.2)
+
+/-- one iteration of `SendProcess` for the channel serving follower `f` (phase `stream`) -/
+def streamStep (q : Q) (f : Fol) : Q × Fol × SObs :=
+  if f.cur.writed = false then
+    match ack q f.cur with
+    | none => (q, f, .noop)
+    | some (q', c', _) => (q', { f with log := f.log ++ [f.cur.bufId], curId := f.cur.bufId, cur := c' }, .send f.cur.bufId)
+  else
+    let r := pop q f.cur
+    match r.1 with
+    | .ok => (q, { f with cur := r.2 }, .popped r.2.bufId)
+    | .eof => (q, f, .idle)
+    | _ => (removePoll q f.cur, { f with conn := .off }, .outOfBuf)
+
+def deliver (s : Sync) (n : Nat) : Sync × SObs :=
+  let f := getF s.fols n
+  match f.conn with
+  | .off => (s, .noop)
+  | .files h pos =>
+    match s.log[pos]? with
+    | some id =>
+      if id < h then
+        ({ s with fols := setF s.fols n { f with log := f.log ++ [id], curId := id, conn := .files h (pos + 1) } }, .file id)
+      else ({ s with fols := setF s.fols n { f with conn := .stream } }, .filesDone)
+    | none => ({ s with fols := setF s.fols n { f with conn := .stream } }, .filesDone)
+  | .stream =>
+    let r := streamStep s.q f
+    ({ s with q := r.1, fols := setF s.fols n r.2.1 }, r.2.2)
+
+def cut (s : Sync) (n : Nat) : Sync × SObs :=
+  let f := getF s.fols n
+  if f.conn = .off then (s, .noop)
+  else ({ s with q := removePoll s.q f.cur, fols := setF s.fols n { f with conn := .off } }, .ok)
+
+def sstep (s : Sync) : Ev → Sync × SObs
+  | .append dlen =>
+    let id := s.log.length + 1
+    ({ s with q := push s.q id id dlen, log := s.log ++ [id] }, .ok)
+  | .connect n => connect s n
+  | .deliver n => deliver s n
+  | .cut n => cut s n
+
+def srun (s : Sync) : List Ev → Sync
+  | [] => s
+  | e :: es => srun (sstep s e).1 es
+
 end Slock.Repl
